@@ -135,10 +135,14 @@ func auxMutants(otherCoinbase common.Address) []auxMutant {
 	return []auxMutant{
 		// --- the proof is reused for different content
 		{"seal/other-content-same-proof", func(s donorSpec, sig []byte, wh *types.WorkObjectHeader) (*types.AuxPow, func(*types.WorkObjectHeader), bool) {
-			if wh.PrimaryCoinbase().Equal(otherCoinbase) {
-				return nil, nil, false
+			other := otherCoinbase
+			if wh.PrimaryCoinbase().Equal(other) {
+				// the header already pays that address: take its neighbour (same zone, same ledger)
+				b := other.Bytes()
+				b[19] ^= 0x01
+				other = common.BytesToAddress(b, *other.Location())
 			}
-			return s.assemble(wh.SealHash(), sig), func(w *types.WorkObjectHeader) { w.SetPrimaryCoinbase(otherCoinbase) }, true
+			return s.assemble(wh.SealHash(), sig), func(w *types.WorkObjectHeader) { w.SetPrimaryCoinbase(other) }, true
 		}},
 		{"seal/other-time-same-proof", func(s donorSpec, sig []byte, wh *types.WorkObjectHeader) (*types.AuxPow, func(*types.WorkObjectHeader), bool) {
 			return s.assemble(wh.SealHash(), sig), func(w *types.WorkObjectHeader) { w.SetTime(w.Time() + 1) }, true
